@@ -34,6 +34,7 @@ REQUIRED = {
     "const_nan_expected": 200,
     "const_unsorted_histories": 100,
     "const_single_visit_histories": 50,
+    "const_nonpositive_time_histories": 50,
     "const_feature_entirely_missing": 50,
     "const_estimate_rows": 2000,
     "lme_cohorts_judged_vs_statsmodels": 16,
@@ -117,10 +118,17 @@ def gen_histories(rng):
     for s in range(n_sub):
         nv = 1 if rng.random() < 0.15 else int(rng.integers(2, 11))
         start = float(rng.uniform(20, 95))
+        origin = rng.random()
+        if origin < 0.12:  # time counted from an event: all visits before it (negative), the last one possibly at 0
+            start = -float(rng.uniform(1, 40))
+        elif origin < 0.2:  # time counted from baseline: first visit at exactly 0
+            start = 0.0
         gaps = rng.uniform(1e-3, 3.0, size=nv)
         if rng.random() < 0.2:
             gaps = np.full(nv, 1e-3)  # closest admissible visits
         ages = np.round(start + np.cumsum(gaps), 3)
+        if origin < 0.2:
+            ages = np.round(ages - ages[0] + start, 3) if origin >= 0.12 else (np.round(ages - ages[-1], 3) if rng.random() < 0.5 else ages)
         if len(set(ages.tolist())) < nv:
             ages = np.round(start + 1e-3 * np.arange(1, nv + 1), 3)
         if scale_kind == 0:
@@ -230,6 +238,8 @@ def _run_const(spec, ctx):
                 ctx.distinct("const", route, a.tolist(), np.nan_to_num(v, nan=1e99).tolist())
             if len(a) == 1:
                 ctx.count("const_single_visit_histories")
+            if (a <= 0).any():
+                ctx.count("const_nonpositive_time_histories")
             ctx.count("const_feature_entirely_missing", int(np.isnan(v).all(axis=0).sum()))
         ctx.count("const_histories", len(seen))
 
